@@ -132,6 +132,42 @@ def c15(res, tier, seed):
                           yv.save_replay("C15", "leak_scan_%d" % k, {"limit": name, "n": n, "source": src}))
         prev_leak = p["leak"] if p["leak"] is not None else prev_leak
         res.count(1, (name, n, L, src))
+    # ------------------------------------------------------------------ evaluation stack: every iterator kind x every small stack size
+    import pegen
+    pe_img, _ = pegen.build(nkeys=3)
+    sweeps = [("dict iterator", 'import "pe"\nrule a { condition: for any k, v in pe.version_info : ( k == "K1" ) }'),
+              ("array iterator", 'import "pe"\nrule a { condition: for any s in pe.sections : ( s.raw_data_size >= 0 ) }'),
+              ("range iterator", 'rule a { condition: for any i in (0..3) : ( i == 2 ) }'),
+              ("enum iterator", 'rule a { condition: for any i in (1, 2, 3) : ( i == 2 ) }'),
+              ("string set iterator", 'rule a { strings: $a = "MZ" $b = "PE" condition: for any of them : ( # > 0 ) }'),
+              ("text set iterator", 'rule a { condition: for any s in ("a", "MZ") : ( s == "MZ" ) }'),
+              ("nested dict in range", 'import "pe"\nrule a { condition: for any i in (0..1) : ( for any k, v in pe.version_info : ( k == "K1" and i >= 0 ) ) }'),
+              ("of and arithmetic", 'rule a { strings: $a = "MZ" $b = "PE" condition: 1 of them and 1 + 2 * (3 + 4 * (5 + 6)) > 0 }')]
+    sizes = list(range(1, 17))
+    lines = ["init", "opt iterlog 0", "opt logmatches 0", "data 1 " + yv.hx(pe_img)]
+    for k, (what, src) in enumerate(sweeps):
+        lines += ["note w%d" % k, "compiler 0", "add 0 - " + yv.hx(src.encode()), "getrules 0 0", "cdestroy 0"]
+        for n in sizes:
+            lines += ["config stack %d" % n, "scanner 0 0", "scan 0 1 mem - - -", "sdestroy 0"]
+        lines += ["config stack 16384", "rdestroy 0"]
+    lines.append("finalize")
+    run = yv.run_script(exe, lines, wd, name="c15_sweep", hang=60, timeout=900)
+    cur, per = None, {}
+    for e in run.events:
+        if e["e"] == "Note" and e["text"].startswith("w"):
+            cur = int(e["text"][1:]); per[cur] = []
+        elif e["e"] == "ScanRet" and cur is not None:
+            per[cur].append(e["ret"])
+    if not run.complete:
+        k = cur or 0
+        res.violation("stack sweep `%s`: stack size %d crashed the scanner: %s" % (sweeps[k][0], len(per.get(k, [])) + 1, yv.crash_summary(run)),
+                      yv.save_replay("C15", "sweep_crash_%d" % k, {"rule": sweeps[k][1], "stack_size": len(per.get(k, [])) + 1, "crash": yv.crash_summary(run)}))
+    for k, (what, src) in enumerate(sweeps):
+        rets = per.get(k, [])
+        if len(rets) == len(sizes):
+            records.append({"kind": "stacksweep", "rets": rets})
+            owners.append(("stack sweep", what, sizes, "rets=%s" % rets))
+            res.count(1, ("sweep", what))
     # ------------------------------------------------------------------ match cap in the production build: isolation of the other strings (Scan.tla trace)
     execs = []
     for flood, others in ((1000001, [1, 2]), (1000000, [1, 1]), (1000050, [2, 0])):
@@ -163,6 +199,13 @@ def c15(res, tier, seed):
         ("pathological regexp on a large buffer", "rule a { strings: $a = /a.*b.*c.*d/s condition: #a > 100000000 }", 8 << 20),
         ("short atoms everywhere", 'rule a { strings: $a = "a" $b = { 61 ?? 61 } condition: #a + #b < 0 }', 8 << 20),
     ]
+    # the VM looks at the clock every 100 instructions: a loop of 10 instructions per iteration entered at each of the 10 possible
+    # phases (k trivial rules in front shift the phase by one instruction pair each)
+    for k in range(10):
+        pre = "\n".join("rule p%d { condition: true }" % j for j in range(k))
+        tcases.append(("loop of 10 instructions entered at phase %d" % k, pre + "\nrule a { condition: for all i in (0..4000000000) : ( true ) }", 64))
+        if tier != "quick" or k % 3 == 0:
+            tcases.append(("loop of 12 instructions entered at phase %d" % k, pre + "\nrule a { condition: for all i in (0..4000000000) : ( i >= 0 ) }", 64))
     lines = ["init", "opt iterlog 0", "opt logmatches 0", "opt hang 60"]
     for k, (what, src, size) in enumerate(tcases):
         lines += ["note t%d" % k, "compiler 0", "add 0 - " + yv.hx(src.encode()), "getrules 0 0", "cdestroy 0", "scanner 0 0", "stimeout 0 1",
